@@ -22,6 +22,18 @@ def run(tier):
     docs_ = optrun.documents(40 if quick else 100, seed + 5, ck, corpus_n=12 if quick else 10**6, tag="c16docs")
     cover = optrun.pairwise_cover(sets, seed, extra=6)
     records, meta = [], {}
+    # documents that carry comments (loaded with include_comments=True): comment lines are exempt from the per-line
+    # rules, but their line breaks are line breaks of the output
+    from . import c14
+    from .. import comments as cm, concretise, docs as _docs
+    loads_c = impl.loader(include_comments=True, expand_includes=False)
+    for j, b in enumerate(c14.behaviours(200 if quick else 1500, seed + 16, ck, max_comments=5, tag="c16comments")):
+        conc = concretise.Concretiser(seed * 971 + j, avoid_quote="\"'")
+        text, _ = cm.render(conc, b["hist"], _docs.root_type(b["hist"]), b["comments"], salt=seed + j)
+        try:
+            docs_.append(("commented:%d" % j, text, loads_c(text)))
+        except Exception:  # noqa: BLE001
+            continue
     for di, (tid, text, d) in enumerate(docs_):
         is_corpus = tid.startswith("corpus")
         use = cover if (quick or is_corpus) else sets
